@@ -437,6 +437,29 @@ def validate_runs(ver, binp, family, trace_module, wd, stage="runs", jobs=12, ge
     return summ
 
 
+def table_sweep(ver, binp, wd, kinds):
+    """DESIGN.md section 8: TLC emits the decision table of integer reads / head widths over the classes (major, bit length) and checks
+    constancy on class representatives (MC_Tables); the harness sweeps the 32-bit argument space (every argument in thorough: stride 1 would
+    take 18 min, stride 3 is used; a stratum in quick) at every head width that can carry it and checks each point against its class row."""
+    t0 = time.time()
+    res = run_tlc("MC_Tables", "MC_Tables.cfg", wd, timeout=1800)
+    tlc_failure(res, "MC_Tables")
+    ver.add_mc(res, "MC_Tables: outcome of every integer read and the preferred head width are constant on every class (major, bit length); reads are the identity")
+    table = os.path.join(wd, "tables.ndjson")
+    extract_cases(res["out_path"], table, "TABLE")
+    out = os.path.join(wd, "sweep32.json")
+    stride = "3" if ver.tier == "thorough" else "4099"
+    summ = run_harness(binp, ["sweep32", table, stride, out], timeout=7200)
+    doc = json.load(open(out))
+    for m in doc["mismatches"]:
+        if m["kind"] in kinds:
+            ver.mismatch("S->I table sweep", {"fam": "sweep32", "name": m["kind"] + ":" + m["t"], "in": m, "obs": {"p": "differs-from-class-row"}})
+    ver.cov["evaluations"] += summ["reads"] + summ["encodes"]
+    ver.cov["traces_validated_against_impl"] += summ["reads"] + summ["encodes"]
+    ver.cov["stages"].append({"stage": "S->I table sweep (MC_Tables rows x 32-bit arguments)", "stride": int(stride), "reads_checked": summ["reads"],
+                              "encodes_checked": summ["encodes"], "mismatches": len(doc["mismatches"]), "wall_s": round(time.time() - t0, 1)})
+
+
 def run_extras(ver, binp, wd):
     """Behaviour beyond the listed properties (spec/Data.tla): recorded and validated like everything else, but a mismatch is a
     NOTE of the hosting check, never a violation of the hosted property."""
